@@ -13,6 +13,7 @@ import logging
 import os
 import signal
 import sys
+import zlib
 
 import onnx
 
@@ -625,6 +626,11 @@ def _parse(line: str):
         return None
 
 
+def salt_of(p: dict, seed: int) -> int:
+    """Per-proto salt: a function of the proto and the seed only (TLC emits records in a scheduling-dependent order)."""
+    return (seed + zlib.crc32(json.dumps(p, sort_keys=True).encode())) & 0x7FFFFFFF
+
+
 def work_c02(args):
     lines, base, seed = args
     quiet()
@@ -646,7 +652,7 @@ def work_c02(args):
             out["model_c17_false"] += 1
         if not C.same_explicit(C.explicit_of(r["p"]), r["e"]):
             out["explicit_mismatch"] += 1
-        salt = (seed + base + i) & 0x7FFFFFFF
+        salt = salt_of(r["p"], seed)
         j = judge_c02(r, salt, out["used"])
         feats = feature_key(r["p"])
         out["features"].add(feats)
@@ -704,7 +710,7 @@ def feature_key(p: dict) -> str:
         if g["kind"] == "sub":
             par = gs[g["par"] - 1]
             pdefs = set(par["ins"]) | set(par["inits"]) | {o for n in par["nodes"] for o in n["outs"] if o}
-            if uses - defs & pdefs or (uses - defs) & pdefs:
+            if (uses - defs) & pdefs:
                 f.append("capture")
             if defs & pdefs:
                 f.append("shadow")
@@ -757,8 +763,8 @@ def work_c17(args):
             out["unparsed"] += 1
             continue
         out["n"] += 1
-        salt = (seed + base + i) & 0x7FFFFFFF
         p = r["p"]
+        salt = salt_of(p, seed)
         mp = C.Concretizer(salt, p["irv"]).model(C.explicit_of(p))
         j = judge_c17(mp)
         feats = feature_key(p)
@@ -792,8 +798,8 @@ def work_c17(args):
                     pass  # reported as violation by _collect_c17; the model did not predict it
                 if not r["c17"] and j["fix"] == "ok":
                     _bump(out["div"], "fixpoint:spec-predicts-failure:code-ok", detail)
-        if (base + i) % 7 == 0:
-            out["mutation_seeds"].append(mp.SerializeToString())
+        if salt % 7 == 0:
+            out["mutation_seeds"].append(mp.SerializeToString(deterministic=True))
     out["features"] = sorted(out["features"])
     return out
 
